@@ -14,9 +14,15 @@ def driver_args(tier, seed, phase):
 RULE = ("hand-written catalogue (no forwarding plugin; ecs_handler forward / preset / send / twice / class CH; "
         "forward_edns0opt per code, all, none; cache storing with and serving without OPT and the reverse, inside and "
         "outside a forwarder; ttl fix/min/max next to OPT; UDP truncation at sizes 0..4096 with a forwarded cookie; "
-        "upstream without OPT, failing, BADVERS; no upstream at all) + seeded random chains of the REAL cache, ttl, "
+        "upstream without OPT, failing, BADVERS; no upstream at all; prefer_ipv4/prefer_ipv6 in front of and behind "
+        "forwarders and caches with distinct cookies on the reference and the served reply, pass and block; fallback "
+        "with forwarders inside both branches and around it, primary answering / failing / SERVFAIL, standing by or not) "
+        "+ function-level cases on structures with OPT records anywhere: the five TTL helpers, copyNoOpt, NewContext, "
+        "SetResponse, and Context.Copy followed by plugin-style writes (RespOpt options, query OPT options, in-place TTL "
+        "rewrite, SetResponse) to the copy or to the original with both observed afterwards + seeded random chains of the REAL cache, ttl, "
         "ecs_handler (6 modes, masks), forward_edns0opt (subsets of 5 codes), forward over 1-2 scripted in-memory "
-        "upstreams, in any order incl. repeated instances and jump/goto splits, loaded from rule text by "
+        "upstreams, in any order incl. repeated instances and jump/goto splits, every fourth case a program around one "
+        "dual_selector or one fallback (two sub-sequences) with forwarders and caches before, inside and after it, loaded from rule text by "
         "sequence.NewSequence ($tag or quick-setup form) and entered through EntryHandler.Handle (UDP/TCP framing, "
         "client address) on 2-5 client queries per program (no OPT / OPT with sizes 0..65535, DO, version, extended "
         "rcode bits, 0-3 options of 5 kinds; repeated questions so caches are hit). Non-trivial: the program has one of "
@@ -27,9 +33,14 @@ ASSUMPTIONS = [
     "the upstream-side theorem and the cache invariant need no hypothesis)",
     "miekg Msg.Truncate satisfies the relation Model.Handler.trunc_rel (checked on every observed UDP reply)",
     "a record has type 41 exactly when miekg represents it as *dns.OPT (representation invariant of Model/Msg.v)",
-    "lazy cache refresh, fallback and dual_selector are not modelled (they run the chain on context copies concurrently)",
-    "one program run takes less than 0.7 s of wall time (the driver repeats slower runs on fresh plugins), so no "
-    "cache entry expires and no whole second passes between store and hit; the theorems hold for any clock",
+    "the lazy cache refresh is not modelled",
+    "fallback and dual_selector: the concurrent sub-runs on context copies are modelled in sequence (reference before "
+    "original, primary before secondary) and their timers are left out; the drivers configure fallback's threshold "
+    "to 60 s, give a standing-by secondary no cache shared with the primary, use each selector instance once, join "
+    "the goroutines Handle started before observing, and accept the order in which upstreams were reached as free",
+    "one program run takes less than 0.4 s of wall time (the driver repeats slower runs on fresh plugins), so no "
+    "cache entry expires, no whole second passes between store and hit and dual_selector's 500 ms grace period never "
+    "runs out; the theorems hold for any clock",
 ]
 TRUSTED_BASE = [
     "hand-written models coq/Model/Msg.v, Handler.v, Plugins.v (+ Model/Sequence.v of C06, key_of of C04) tied to "
@@ -40,15 +51,16 @@ TRUSTED_BASE = [
     "(answers as a function of the message it receives) plugged into the real forward plugin via VerifNewForward",
 ]
 LEVEL_TEXT = ("Theorems in coq/Properties/C15.v for every sequence program over the modelled plugins (cache, redirect, "
-              "ecs_handler, forward_edns0opt, hosts, black_hole, arbitrary, ttl, forward, drop_resp, reject, any matchers), "
-              "every client query, every upstream behaviour and every cache timing: each message handed to an upstream has "
+              "ecs_handler, forward_edns0opt, dual_selector, fallback over sub-programs nested to any depth, hosts, "
+              "black_hole, arbitrary, ttl, forward, drop_resp, reject, any matchers), every client query, every upstream behaviour and every cache timing: each message handed to an upstream has "
               "exactly one fresh OPT (size edns0Size, DO clear, version 0) whose options were put there by an ecs_handler / "
               "forward_edns0opt of the table; the reply has one OPT iff the client sent one, DO mirrored, options only from "
               "upstream OPTs through a plugin forwarding their code; the TTL helpers leave OPT records in place; cache "
               "contents and R() never hold an OPT in the additional section; any truncation allowed by Msg.Truncate's "
-              "contract keeps the OPT. The model is run inside Coq on every case the Go driver observed on the real "
+              "contract keeps the OPT; a context copy is a value of its own, fallback returns nothing but a response and "
+              "dual_selector ends with the response OPT of the one sub-run it adopts. The model is run inside Coq on every case the Go driver observed on the real "
               "plugins behind the real EntryHandler.Handle (Judge.C15.agree), and Judge.C15.spec states the property on "
-              "the observations alone.")
+              "the observations alone (reply options must all come from ONE upstream reply given while the query was handled).")
 LEVEL_NOTE = ("Trusted: Coq kernel + vm_compute; hand-written model tied to the code by the differential run and "
               "Gen/Constants.v; contract of miekg Truncate/Pack; upstream replies with at most one OPT. Observation: the "
               "extended-rcode byte of the client's OPT travels to the upstream inside the fresh OPT (miekg Pack copies "
